@@ -1991,7 +1991,7 @@ func (s *sim) stepWeirdReport() {
 	case 1: // retired (swapped-out) or dead connection
 		var cands []*simConn
 		for _, c := range s.conns {
-			if c.retired || (c.ch != nil && !c.ch.alive && !s.hostile) {
+			if c.retired || (c.ch != nil && !c.ch.alive && c.ch.conn == c) {
 				cands = append(cands, c)
 			}
 		}
